@@ -1,3 +1,109 @@
 package main
 
-func runFixturesImpl(root string) error { return nil }
+import (
+	"fmt"
+	"go/types"
+	"path/filepath"
+	"strings"
+
+	"golang.org/x/tools/go/ssa"
+)
+
+// runFixturesImpl loads the fixture module (same module path, packages under pkg/fixture/…, stdlib only)
+// and requires each engine to fire on the `Bad…` functions and stay silent on the `Good…` ones. A dead
+// or over-eager engine makes every check UNDECIDED.
+func runFixturesImpl(root string) error {
+	dir := filepath.Join(root, "fixt")
+	fc, err := load(dir, nil)
+	if err != nil {
+		return fmt.Errorf("cannot load fixture module: %v", err)
+	}
+	fc.Prop, fc.Tier = "FIXTURE", "quick"
+	verdicts := func() map[string]string {
+		out := map[string]string{}
+		for _, o := range fc.Obs {
+			if o.Verdict == "info" {
+				continue
+			}
+			// key: function name inside the construct
+			fn := o.Construct
+			if i := strings.Index(fn, "#"); i >= 0 {
+				fn = fn[:i]
+			}
+			fn = fn[strings.LastIndex(fn, ".")+1:]
+			if prev, ok := out[fn]; !ok || prev == "discharged" {
+				out[fn] = o.Verdict
+			}
+		}
+		return out
+	}
+	expect := func(engine string, v map[string]string, bad, good []string) error {
+		for _, b := range bad {
+			if v[b] != "violated" {
+				return fmt.Errorf("%s engine did not fire on fixture %s (got %q): rule is dead", engine, b, v[b])
+			}
+		}
+		for _, g := range good {
+			if v[g] == "violated" {
+				return fmt.Errorf("%s engine fired on the correct fixture %s: rule is over-eager", engine, g)
+			}
+		}
+		return nil
+	}
+	// LCK
+	fc.Obs = nil
+	cls := "pkg/fixture/lck.Store.mu"
+	e := newLck(fc, &lckConfig{rule: "FX-LCK", pkgs: []string{"pkg/fixture/lck"}, guards: []guard{
+		{typ: "pkg/fixture/lck.Store", field: "items", class: cls},
+		{typ: "pkg/fixture/lck.Store", field: "n", class: cls},
+	}})
+	e.run()
+	v := verdicts()
+	if err := expect("LCK", v, []string{"BadSetUnderRLock", "BadReadAfterUnlock"}, []string{"GoodGet", "GoodSet"}); err != nil {
+		return err
+	}
+	// the helper summary: bump is violated only because BadHelperWithoutLock reaches it unlocked
+	helperFlagged := false
+	for _, o := range fc.Obs {
+		if o.Verdict == "violated" && strings.Contains(o.Construct, "Store.bump") && strings.Contains(strings.Join(o.Path, " "), "BadHelperWithoutLock") {
+			helperFlagged = true
+		}
+	}
+	if !helperFlagged {
+		return fmt.Errorf("LCK engine did not trace the unlocked helper call chain (BadHelperWithoutLock -> bump)")
+	}
+	// PAN
+	fc.Obs = nil
+	ifaceEqAudit(fc, "FX-PAN", []string{"pkg/fixture/pan"}, nil)
+	uncheckedAssertAudit(fc, "FX-PAN", []string{"pkg/fixture/pan"}, nil)
+	v = verdicts()
+	if err := expect("PAN", v, []string{"BadEq", "BadAssert"}, []string{"GoodEqConst", "GoodEqGuarded", "GoodAssert"}); err != nil {
+		return err
+	}
+	// TNT
+	san := map[string]bool{modPath + "/pkg/fixture/tnt.Sanitize": true}
+	t := newTnt(fc, san)
+	for _, fn := range fc.srcFuncs("pkg/fixture/tnt") {
+		name := fn.Name()
+		if !strings.HasPrefix(name, "Good") && !strings.HasPrefix(name, "Bad") {
+			continue
+		}
+		res := true
+		eachInstr(fn, func(b *ssa.BasicBlock, _ int, ins ssa.Instruction) {
+			if r, ok := ins.(*ssa.Return); ok {
+				if _, isStr := r.Results[0].Type().Underlying().(*types.Basic); isStr {
+					if ok2, _ := t.clean(retVals(r)[0], b); !ok2 {
+						res = false
+					}
+				}
+			}
+		})
+		if strings.HasPrefix(name, "Good") && !res {
+			return fmt.Errorf("TNT engine reports the clean fixture %s as tainted: rule is over-eager", name)
+		}
+		if strings.HasPrefix(name, "Bad") && res {
+			return fmt.Errorf("TNT engine reports the tainted fixture %s as clean: rule is dead", name)
+		}
+	}
+	return nil
+}
